@@ -429,6 +429,13 @@ def minimize_lbfgsb(
         else:
             # same state as the checkpoint, but with the termination report of this
             # call (the checkpoint carries the one of the run that produced it)
+            hess_inv = checkpoint.hess_inv
+            n_corrs = hess_inv.sk.shape[0]
+            if n_corrs > maxcor:
+                # restart with a smaller memory: only the most recent pairs are kept
+                hess_inv = LbfgsInvHessProduct(
+                    hess_inv.sk[n_corrs - maxcor :], hess_inv.yk[n_corrs - maxcor :]
+                )
             return OptimizeResult(
                 fun=f0,
                 jac=checkpoint.jac,
@@ -439,7 +446,7 @@ def minimize_lbfgsb(
                 message=istate.task_str,
                 x=x,
                 success=istate.is_success,
-                hess_inv=checkpoint.hess_inv,
+                hess_inv=hess_inv,
             )
 
     # Compute the first gradient if no checkpoint provided
